@@ -33,6 +33,8 @@ def oracle(req, resp):
         return f"consumer answered stop at callback {n - 1}, result is {st}"
     if last == "e" and st != f"ConsumerError:script{n - 1}":
         return f"consumer answered error at callback {n - 1}, result is {st} (the consumer's own value must be carried)"
+    if last in ("p", "q", "c") and not st.startswith("ConsumerError:state:"):
+        return f"consumer answered error (its value a ParseState) at callback {n - 1}, result is {st}: not the consumer-error result carrying it"
     if last is None and st.startswith("Consumer"):
         return f"result {st} although every callback was answered continue"
     if st == "ok" and not trace.endswith("F"):
@@ -77,6 +79,9 @@ def run(ctx):
             for k in range(0, n + 1):          # every callback position, both answers
                 reqs.append(f"parse {hx} {k}:s")
                 reqs.append(f"parse {hx} {k}:e")
+            # error answers whose boxed value is a ParseState: still ConsumerError carrying it, at every position
+            for k in range(0, n + 1):
+                reqs.append(f"parse {hx} {k}:{'pqc'[k % 3]}")
             for en in entries[1:]:
                 reqs.append(f"{en} {hx}")
                 for k in sorted({0, 1, 2, n - 1, n}):
